@@ -110,7 +110,12 @@ def main(pid, tier, seed, replay):
             chk.finding(None, "printing is not a fixpoint: print(parse(print(P))) differs from print(P): %s" % diff, dict(rep, printed_twice=r["p2"][:6000]))
             continue
         stats["fixpoint"] += 1
-        if r["rc_run0"] != 0 or r["rc_run1"] != 0:
+        if r["rc_run0"] != 0:
+            # the ORIGINAL program does not finish (time limit: a generated program that diverges or is too large) or is
+            # rejected when run: nothing can be concluded about its printed form -- counted, not reported
+            stats["original_does_not_run"] = stats.get("original_does_not_run", 0) + 1
+            continue
+        if r["rc_run1"] != 0:
             chk.finding(None, "the printed program does not run (status %s / %s): %s" % (r["rc_run0"], r["rc_run1"], r.get("err_run1", "")[-200:]), rep)
             continue
         bad = [(k, sorted(set(v or []) ^ set(r["out1"].get(k) or []))[:4]) for k, v in r["out0"].items() if sorted(v or []) != sorted(r["out1"].get(k) or [])]
